@@ -296,7 +296,7 @@ def run(prop, replay_file=None):
             files = sorted(glob.glob(simdir + "/tr_*"))
             for f in files:
                 states = [st for _n, _a, st in tlc.parse_sim_file(f)]
-                events, mism = broker_conf.replay(states, printing=(nbeh % 4 == 3), ctor_funds=(nbeh % 3 == 1))
+                events, mism = broker_conf.replay(states, printing=(nbeh % 4 == 3), ctor_funds=(nbeh % 3 == 1), ccy=["USD", "GBP", "USD", "EUR", "USD"][nbeh % 5])
                 nbeh += 1
                 ncalls += len(events) - 1
                 d = digest(events)
@@ -405,7 +405,7 @@ def transition_cover(rep, prop, w, feats_all, depth=3):
             continue
         done.add((s, d))
         states = [nodes[x] for x in path[s]] + [nodes[d]]
-        events, mism = broker_conf.replay(states, printing=(n % 4 == 3), ctor_funds=(n % 3 == 1))
+        events, mism = broker_conf.replay(states, printing=(n % 4 == 3), ctor_funds=(n % 3 == 1), ccy=["USD", "GBP", "USD", "EUR", "USD"][n % 5])
         n += 1
         feats_all[digest(events)] = behaviour_features(events)
         for step, tag, detail in attribute(mism):
